@@ -580,7 +580,7 @@ struct timespec* sentTime) {
       return setState(bs_skip, RESULT_ERR_CRC);
     }
     if (m_currentRequest != nullptr) {
-      return setState(bs_sendResAck, RESULT_ERR_CRC);
+      return setState(bs_sendResAck, RESULT_ERR_CRC, true);
     }
     return setState(bs_recvResAck, RESULT_ERR_CRC);
 
